@@ -538,11 +538,18 @@ LEVEL_NOTE = ('Trusted: Coq kernel + vm_compute; the inventory translator (and t
 OCAML_UTILS = []
 
 
+_ROPTS = {'list': None, 'pos': 0, 'scale': None}
+
+
 def _raster(seed, dtype, backend, shape=(6, 7), kind='data'):
     import numpy as np
     import xarray as xr
     rng = random.Random(seed)
     h, w = shape
+    opts = {}
+    if _ROPTS['list']:
+        opts = _ROPTS['list'][_ROPTS['pos']] if _ROPTS['pos'] < len(_ROPTS['list']) else {}
+        _ROPTS['pos'] += 1
     if kind == 'zones':
         vals = [[1 + (r * 2 // h) * 2 + (c * 2 // w) for c in range(w)] for r in range(h)]
     elif kind == 'terrain':
@@ -557,13 +564,43 @@ def _raster(seed, dtype, backend, shape=(6, 7), kind='data'):
     a = np.array(vals, dtype=dtype)
     if dtype.startswith('float') and kind == 'data':
         a[rng.randrange(h), rng.randrange(w)] = np.nan
+    sc = _ROPTS.get('scale')
+    if sc and kind not in ('zones',):
+        if sc == 'big24':
+            a = (a.astype('float64') * 2 + (2 ** 24 + 1)).astype(dtype)
+        elif sc == 'big31':
+            a = (a.astype('float64') * 2 + (2 ** 31 + 7)).astype(dtype)
+        elif sc == 'big53':
+            a = (a.astype('float64') * 4 + 2.0 ** 53).astype(dtype)
+        elif sc == 'tiny' and a.dtype.kind == 'f':
+            a = a * 2.0 ** -100
+        elif sc == 'huge' and a.dtype.kind == 'f':
+            a = a * 2.0 ** 100
+    if opts.get('fill') == 'allequal':
+        a[...] = 3
+    elif opts.get('fill') == 'allnan' and a.dtype.kind == 'f':
+        a[...] = np.nan
+    lay = opts.get('layout')
+    if lay == 'F':
+        a = np.asfortranarray(a)
+    elif lay == 'transposed':
+        a = np.ascontiguousarray(a.T).T
+    elif lay == 'reversed':
+        a = np.ascontiguousarray(a[::-1, ::-1])[::-1, ::-1]
+    elif lay == 'strided':
+        big = np.zeros((2 * h, 3 * w), dtype=a.dtype)
+        big[::2, ::3] = a
+        a = big[::2, ::3]
+    elif lay == 'readonly':
+        a.flags.writeable = False
     data = a
     if backend == 'dask':
         import dask.array as da
-        data = da.from_array(a, chunks=(max(1, h // 2), max(1, (w + 1) // 2)))
-    return xr.DataArray(data, dims=['y', 'x'], name='r',
-                        coords={'y': np.arange(h, dtype='float64')[::-1] * 2.0, 'x': np.arange(w, dtype='float64') * 2.0},
-                        attrs={'res': (2.0, 2.0)})
+        ch = opts.get('chunks')
+        data = da.from_array(a, chunks=ir._chunks_for(ch, h, w) if ch else (max(1, h // 2), max(1, (w + 1) // 2)))
+    ys, xs = ir._axis_coords(opts.get('coords', 'desc2'), h, w)
+    attrs = {'res': (2.0, 2.0)} if opts.get('coords', 'desc2') == 'desc2' else {}
+    return xr.DataArray(data, dims=['y', 'x'], name='r', coords={'y': ys, 'x': xs}, attrs=attrs)
 
 
 def catalogue():
@@ -697,6 +734,78 @@ def catalogue():
                'analytics.summarize_terrain'):
         add(fn, dtype='float64')
         add(fn, dtype='int32', backend='dask')
+    # ---- theme audit streams ----
+    # 1. memory layouts (Numba specialises per layout) of each array argument separately
+    for li, lay in enumerate(['F', 'transposed', 'strided', 'reversed', 'readonly']):
+        add('slope.slope', dtype='float64', ropts=[{'layout': lay}])
+        add('focal.apply', dtype='float32', kernel='cross3', shape=[12, 14], ropts=[{'layout': lay}])
+        add('zonal.stats', dtype='float64', ropts=[{'layout': lay}, {}] if li % 2 else [{}, {'layout': lay}])
+        add('proximity.proximity', target_values=[1], max_distance=4.0, dtype='int32', ropts=[{'layout': lay}])
+        add('multispectral.evi', dtype='float64', ropts=[{}, {'layout': lay}, {}] if li % 2 else [{}, {}, {'layout': lay}])
+    # 3. Dask chunkings: irregular, 1-wide, single, rows, per-argument different splits with the same maximum
+    for ck in ('irregular', 'onewide', 'single', 'rows1'):
+        add('slope.slope', dtype='float64', backend='dask', ropts=[{'chunks': ck}])
+        add('focal.apply', dtype='float64', kernel='cross3', shape=[12, 14], backend='dask', ropts=[{'chunks': ck}])
+        add('focal.mean', passes=2, backend='dask', ropts=[{'chunks': ck}])
+        add('proximity.proximity', target_values=[1], max_distance=4.0, dtype='int32', backend='dask', ropts=[{'chunks': ck}])
+        add('classify.quantile', k=3, backend='dask', ropts=[{'chunks': ck}])
+        add('zonal.stats', dtype='float64', backend='dask', ropts=[{'chunks': ck}, {'chunks': 'samemax-a'}])
+    add('multispectral.evi', dtype='float64', backend='dask', ropts=[{'chunks': 'samemax-a'}, {'chunks': 'samemax-b'}, {'chunks': 'samemax-a'}])
+    add('multispectral.ndvi', dtype='float64', backend='dask', ropts=[{'chunks': 'samemax-a'}, {'chunks': 'samemax-b'}])
+    add('multispectral.true_color', dtype='float64', backend='dask', ropts=[{'chunks': 'irregular'}, {'chunks': 'rows1'}, {'chunks': 'single'}])
+    add('zonal.crosstab', dtype='int32', backend='dask', ropts=[{'chunks': 'samemax-b'}, {'chunks': 'samemax-a'}])
+    # 5. list-valued parameters: unsorted, duplicates, absent entries, given as arrays of another dtype; big kernels; units
+    add('zonal.stats', dtype='float64', zone_ids=[4, 1, 1, 9], stats_funcs=['sum', 'mean', 'count'])
+    add('zonal.stats', dtype='float64', zone_ids=[1, 4, 9], stats_funcs=['count', 'sum', 'mean'])
+    add('zonal.crosstab', dtype='int32', zone_ids=[4, 2, 2, 7], cat_ids=[3, 1, 1, 8])
+    add('proximity.proximity', target_values=[3, 1, 1, 9], max_distance=4.0, dtype='int32')
+    add('proximity.proximity', target_values=[1, 3], max_distance=4.0, dtype='int32', as_array=['target_values'], target_values_dtype='float32')
+    add('classify.binary', dtype='float64', values=[3.0, 1.0, 1.0, 7.5])
+    add('classify.binary', dtype='float32', values=[1, 3], as_array=['values'], values_dtype='int64')
+    add('classify.reclassify', bins=[1, 3, 5], new_values=[10, 20, 30], as_array=['bins', 'new_values'], bins_dtype='float32', new_values_dtype='int16')
+    add('zonal.trim', dtype='int32', values=[1, 0, 0])
+    add('focal.mean', passes=1, excludes=[0.0, 2.0, 0.0])
+    add('pathfinding.a_star_search', dtype='float64', barriers=[3, 0, 0], as_array=['barriers'], barriers_dtype='int32')
+    add('convolution.circle_kernel', cellsize_x=1, cellsize_y=1, radius=12)
+    add('convolution.circle_kernel', cellsize_x=1000, cellsize_y=1000, radius='3km')
+    add('convolution.circle_kernel', cellsize_x=1, cellsize_y=1, radius='3 m')
+    add('convolution.annulus_kernel', cellsize_x=0.5, cellsize_y=1, outer_radius='12ft', inner_radius='1 m')
+    add('focal.apply', dtype='float64', kernel='circle:1,1,12', shape=[40, 48])
+    add('focal.hotspots', dtype='float64', kernel='circle:1,1,12', shape=[40, 48])
+    # 2. values: beyond float32 / int32 / 2**53, tiny and huge magnitudes (offset / scale of the data)
+    for sc in ('big24', 'big31', 'big53', 'tiny', 'huge'):
+        add('zonal.stats', dtype='float64' if sc not in ('big31',) else 'int64', scale=sc)
+        add('slope.slope', dtype='float64', scale=sc)
+        add('classify.equal_interval', k=3, scale=sc)
+        add('multispectral.ndvi', dtype='float64', scale=sc)
+    # 6. coordinate systems: ascending / negative / fractional, large spacing, x != y
+    for ck in ('asc-frac', 'large'):
+        for fn_, kw_ in [('slope.slope', {}), ('curvature.curvature', {}), ('convolution.calc_cellsize', {}), ('hillshade.hillshade', {}),
+                         ('proximity.proximity', {'target_values': [1], 'max_distance': 'inf'}), ('viewshed.viewshed', {'coordpoint': True}),
+                         ('pathfinding.a_star_search', {}), ('focal.hotspots', {'kernel': 'cross3'})]:
+            add(fn_, dtype='float64' if fn_ != 'proximity.proximity' else 'int32', ropts=[{'coords': ck}], **kw_)
+        add('slope.slope', dtype='float64', backend='dask', ropts=[{'coords': ck}])
+    # 7. degenerate shapes and fills
+    for shp in ([1, 1], [1, 5], [5, 1], [2, 2]):
+        for fn_, kw_ in [('slope.slope', {}), ('aspect.aspect', {}), ('focal.mean', {'passes': 1}), ('focal.apply', {'kernel': 'cross3'}),
+                         ('classify.quantile', {'k': 2}), ('classify.natural_breaks', {'k': 2}), ('zonal.regions', {}),
+                         ('zonal.stats', {}), ('proximity.proximity', {'target_values': [1]}), ('perlin.perlin', {'seed_arg': 2}),
+                         ('terrain.generate_terrain', {'seed_arg': 2, 'template': 'zeros'}), ('experimental.polygonize.polygonize', {}),
+                         ('multispectral.ndvi', {}), ('zonal.trim', {'values': [0]}), ('hillshade.hillshade', {})]:
+            add(fn_, dtype='float64' if fn_ not in ('zonal.regions', 'experimental.polygonize.polygonize', 'zonal.trim') else 'int32',
+                shape=shp, **kw_)
+        add('slope.slope', dtype='float64', backend='dask', shape=shp, ropts=[{'chunks': 'onewide'}])
+    for fill in ('allnan', 'allequal'):
+        for fn_, kw_ in [('slope.slope', {}), ('classify.quantile', {'k': 3}), ('classify.equal_interval', {'k': 3}),
+                         ('classify.natural_breaks', {'k': 3}), ('focal.hotspots', {'kernel': 'cross3'}), ('zonal.stats', {}),
+                         ('perlin.perlin', {'seed_arg': 2}), ('multispectral.ndvi', {}), ('zonal.trim', {'values': [3.0]})]:
+            add(fn_, dtype='float64', ropts=[{'fill': fill}, {'fill': fill}], **kw_)
+    # 4. rasters DERIVED from a shared, already processed raster (slice / shallow copy / cast / re-coordinated / reversed)
+    for dv in ('slice', 'copy', 'astype', 'assign_coords', 'isel_rev'):
+        for fn_, kw_ in [('convolution.calc_cellsize', {}), ('slope.slope', {}), ('focal.hotspots', {'kernel': 'cross3'}),
+                         ('curvature.curvature', {})]:
+            add(fn_, dtype='float64', share='A', shape=[12, 14], derive=dv, **kw_)
+            add(fn_, dtype='int32', share='B', shape=[12, 14], backend='dask', derive=dv, **kw_)
     # seeded generators are functions of seed, shape and extent ONLY: templates holding zeros / ones / an existing
     # raster (no NaN, so that the min-max normalisation cannot hide a difference) must give the same bits (`equiv`)
     for tmpl in ('zeros', 'ones', 'ramp'):
@@ -800,6 +909,13 @@ def prepare(d):
     kw.pop('equiv', None)
     template = kw.pop('template', None)
     const_band = kw.pop('const_band', None)
+    _ROPTS['list'] = kw.pop('ropts', None)
+    _ROPTS['pos'] = 0
+    derive = kw.pop('derive', None)
+    _ROPTS['scale'] = kw.pop('scale', None)
+    coordpoint = kw.pop('coordpoint', False)
+    for k in kw.pop('as_array', None) or []:
+        kw[k] = np.array(kw[k], dtype=kw.pop(k + '_dtype', None))
     shape = tuple(d['shape'])
     be, dt, seed = d['backend'], d['dtype'], d['seed']
     for k in list(kw):
@@ -832,7 +948,19 @@ def prepare(d):
     if fn in ('convolution.circle_kernel', 'convolution.annulus_kernel'):
         return f, (), kw
     if share:
-        return f, (_shared_raster(d),), kw
+        r = _shared_raster(d)
+        # theme 4: a raster DERIVED from the shared (already processed) one inherits its attrs / coords / buffer
+        if derive == 'slice':
+            r = r[1:, 1:]
+        elif derive == 'copy':
+            r = r.copy(deep=False)
+        elif derive == 'astype':
+            r = r.astype('float32')
+        elif derive == 'assign_coords':
+            r = r.assign_coords(x=r['x'] * 3.0)
+        elif derive == 'isel_rev':
+            r = r.isel(y=slice(None, None, -1))
+        return f, (r,), kw
     if fn == 'zonal.crosstab' and stack3:
         return f, (_raster(seed, 'int32' if dt.startswith('float') else dt, be, shape, 'zones'), _stack3(seed + 1, dt, shape)), kw
     if fn in ('zonal.stats', 'zonal.crosstab', 'zonal.crop'):
@@ -842,11 +970,15 @@ def prepare(d):
              'sipi': 3, 'ebbi': 3}[fname]
         return f, tuple(_raster(seed + i, dt, be, shape, 'const' if i == const_band else 'data') for i in range(n)), kw
     if fn == 'viewshed.viewshed':
-        return f, (_raster(seed, dt, be, shape, 'terrain'),), kw
+        r = _raster(seed, dt, be, shape, 'terrain')
+        if coordpoint:
+            kw = dict(kw, x=float(r.x.values[2]), y=float(r.y.values[3]), observer_elev=3.0)
+        return f, (r,), kw
     if template:
         return f, (_raster(seed, dt, be, shape, template),), kw
     if fn == 'pathfinding.a_star_search':
-        return f, (_raster(seed, dt, be, shape), (10.0, 0.0), (0.0, 12.0)), kw
+        r = _raster(seed, dt, be, shape)
+        return f, (r, (float(r.y.values[0]), float(r.x.values[0])), (float(r.y.values[-1]), float(r.x.values[-1]))), kw
     return f, (_raster(seed, dt, be, shape),), kw
 
 
@@ -908,10 +1040,11 @@ def execute(d):
     return call_prepared(f, args, kw)
 
 
-def digest(res):
+def digest(res, mark_dask=False):
     import numpy as np
     h = hashlib.sha256()
     desc = []
+    first = [mark_dask]
 
     def feed(x):
         import xarray as xr
@@ -921,6 +1054,9 @@ def digest(res):
             if type(v).__module__.startswith('dask'):
                 h.update(b'dask')
                 v = v.compute()
+            elif first[0]:
+                h.update(b'dask')          # a Dask-backed result that was already computed jointly with others
+            first[0] = False
             h.update(repr((tuple(x.dims), sorted(x.coords.keys()), sorted((str(k), repr(v)) for k, v in x.attrs.items()))).encode())
             feed(np.asarray(v))
         elif isinstance(x, xr.Dataset):
@@ -967,11 +1103,29 @@ def worker_main():
     LAG = 2
 
     def flush(all_=False):
-        for item in list(pending):
+        for item in pending:
             item[2] -= 1
-            if all_ or item[2] < 0:
-                out[item[0]].append(lazy_digest(item[1]))
-                pending.remove(item)
+        if pending and (all_ or any(item[2] < 0 for item in pending)):
+            # when the oldest lazy result is due, EVERY pending lazy result is computed by ONE dask.compute
+            items = list(pending)
+            del pending[:]
+            lazies = [it[1] for it in items]
+            joint = None
+            try:
+                import dask
+                import xarray as xr
+                if len(lazies) > 1 and all(isinstance(x, xr.DataArray) for x in lazies):
+                    joint = dask.compute(*lazies)
+            except Exception:         # noqa
+                joint = None
+            for n_, it in enumerate(items):
+                if joint is not None:
+                    try:
+                        out[it[0]].append(digest(joint[n_], mark_dask=True)[0])
+                        continue
+                    except Exception:  # noqa
+                        pass
+                out[it[0]].append(lazy_digest(it[1]))
     for d in req['calls']:
         flush()
         try:
